@@ -883,8 +883,8 @@ def stream_memo(ctx, impl, sig, oracle, n):
 # 5. run / replay
 # =====================================================================================
 QUICK_THEORIES = [("hoare", 500), ("interval_arith", 450), ("string", 150), ("set", 250)]
-THOROUGH_THEORIES = [("hoare", 5000), ("interval_arith", 5000), ("string", 1500), ("set", 3000), ("list", 2000), ("real", 3000),
-                     ("function", 1500), ("logic", 1000), ("nat", 1500), ("int", 1500), ("expr", 800), ("gcl", 800), ("realintegral", 2000)]
+THOROUGH_THEORIES = [("hoare", 4000), ("interval_arith", 4000), ("string", 1000), ("set", 2000), ("list", 1000), ("real", 1500),
+                     ("function", 800), ("logic", 500), ("nat", 800), ("int", 800), ("expr", 400), ("gcl", 400), ("realintegral", 800)]
 
 
 def known_keys(keywords):
@@ -938,7 +938,9 @@ def run(ctx):
     from harness.props import c07_gen as G
     theories = QUICK_THEORIES if ctx.tier == "quick" else THOROUGH_THEORIES
     replay_corpus(ctx, impl, keywords)
-    for thy_name, n in theories:
+    for idx_thy, (thy_name, n) in enumerate(theories):
+        full = ctx.tier == "quick" or idx_thy < 4       # thorough: the first four theories at full scale, the rest at quick scale
+        scale = ctx.scale if full else (lambda q, t: q)
         impl.load(thy_name)
         sig = G.Sig(ctx.repo, thy_name, impl.parser.parse_type)
         oracle = Oracle(ctx, impl, sig, keywords)
@@ -948,21 +950,21 @@ def run(ctx):
         for k, v in hist.items():
             ctx.count("gen:" + k, v)
         marks.append(("terms", time.time()))
-        stream_nestings(ctx, impl, sig, oracle, ops, binders, per_pair=ctx.scale(1, 3))
+        stream_nestings(ctx, impl, sig, oracle, ops, binders, per_pair=scale(1, 2))
         marks.append(("nest", time.time()))
-        stream_adversarial_names(ctx, impl, sig, oracle, ctx.scale(60, 600))
+        stream_adversarial_names(ctx, impl, sig, oracle, scale(60, 600))
         marks.append(("names", time.time()))
-        stream_types(ctx, impl, sig, ctx.scale(100, 1500))
+        stream_types(ctx, impl, sig, scale(100, 1500))
         marks.append(("types", time.time()))
-        stream_thms(ctx, impl, sig, oracle, ctx.scale(60, 800))
+        stream_thms(ctx, impl, sig, oracle, scale(60, 800))
         marks.append(("thm", time.time()))
-        stream_insts_items(ctx, impl, sig, oracle, ctx.scale(80, 1000))
+        stream_insts_items(ctx, impl, sig, oracle, scale(80, 1000))
         marks.append(("item", time.time()))
-        stream_memo(ctx, impl, sig, oracle, ctx.scale(60, 600))
+        stream_memo(ctx, impl, sig, oracle, scale(60, 600))
         marks.append(("memo", time.time()))
         stream_library(ctx, impl, sig, oracle, thy_name, ctx.scale(150, 100000))
         marks.append(("library", time.time()))
-        correspondence(ctx, impl, sig, oracle, ops, binders, levels, ctx.scale(150, 2000))
+        correspondence(ctx, impl, sig, oracle, ops, binders, levels, scale(150, 2000))
         marks.append(("corr", time.time()))
         ctx.log("theory %s done: %s" % (thy_name, " ".join("%s=%.1fs" % (marks[i][0], marks[i][1] - marks[i - 1][1]) for i in range(1, len(marks)))))
     if ctx.tier == "thorough":
